@@ -132,7 +132,11 @@ class Scope:
         if isinstance(expr, ast.Name):
             if expr.id == "self" and self.fi is not None and self.fi.cls:
                 return f"{self.module.name}.{self.fi.cls}"
+            cache = self.__dict__.setdefault("_name_class", {})
+            if self.fi is not None and expr.id in cache:
+                return cache[expr.id]
             if self.fi is not None:
+                cache[expr.id] = None       # (cycle guard; replaced below)
                 # all assignments to the name must construct the same class
                 classes = set()
                 for n in own_nodes(self.fi.node):
@@ -157,7 +161,8 @@ class Scope:
                             ):
                                 classes.add(None)
                 if len(classes) == 1:
-                    return next(iter(classes))
+                    cache[expr.id] = next(iter(classes))
+                    return cache[expr.id]
             return None
         if isinstance(expr, ast.Attribute):
             base = self.class_of(expr.value, depth + 1)
